@@ -30,6 +30,19 @@ try:
         if not ok:
             missed.append(n)
         shutil.rmtree(repo, ignore_errors=True)
+        rf = os.path.join(d, "refactor.diff")
+        if os.path.exists(rf):
+            # round F: the slip sits inside a behaviour-preserving refactoring, on which the same check must be silent
+            # (otherwise "caught" above would only mean that the check fails closed on the refactoring)
+            repo = os.path.join(scratch, "repo-%s-refactoring" % n)
+            subprocess.check_call(["rsync", "-a", "--exclude", "target", "--exclude", ".git", "/repo/", repo + "/"])
+            subprocess.check_call("find . -name '*.rs' -o -name '*.toml' | xargs touch", shell=True, cwd=repo)
+            subprocess.check_call(["patch", "-p1", "-s", "-i", rf], cwd=repo)
+            r = subprocess.run([os.path.join(VERIF, "check"), prop], cwd=VERIF, env=dict(os.environ, RSAV_REPO=repo, RSAV_OUT_DIR=os.path.join(scratch, "out")), stdout=subprocess.PIPE, stderr=subprocess.STDOUT, text=True)
+            print("%s %-58s %s on the refactoring alone" % ("silent" if r.returncode == 0 else "ALARM ", n, prop))
+            if r.returncode != 0:
+                missed.append(n + " (false alarm on the refactoring)")
+            shutil.rmtree(repo, ignore_errors=True)
 finally:
     shutil.rmtree(scratch, ignore_errors=True)
 print("%d missed" % len(missed))
